@@ -190,8 +190,8 @@ func runTaintOps(r *Rng, n int, w io.Writer, stats map[string]int) {
 		viewObj := wn.materialise(sec)
 		// the API copy may differ from the view (stale cache): taints changed meanwhile
 		api := wn.clone()
-		if r.chance(30) {
-			switch r.intn(4) {
+		if r.chance(35) {
+			switch r.intn(5) {
 			case 0:
 				api.Taints = append(api.Taints, WTaint{Key: escKey, Effect: "NoSchedule", Rel: true, Ago: 5})
 			case 1:
@@ -204,8 +204,10 @@ func runTaintOps(r *Rng, n int, w io.Writer, stats map[string]int) {
 				api.Taints = keep
 			case 2:
 				api.Labels["late"] = "label"
-			default:
+			case 3:
 				api.Unschedulable = !api.Unschedulable // cordoned (or uncordoned) since the cache saw it
+			default:
+				api.Annotations[noDeleteKey] = r.pick("true", "keep") // put under protection since the cache saw it
 			}
 		}
 		ks.store = map[string]*v1.Node{}
